@@ -44,6 +44,10 @@ def check(repo, col, tier):
     _loc(repo, col)
     _named(repo, col)
     _basestate(repo, col)
+    # inputs given through a view land on that view's rows: values and row indices stay paired (shared with C08/C19)
+    col.rule("R-C11-pairing", "stimuli / clamps given through a view stay attached to the rows of that view", 3)
+    from . import c08
+    c08._pairing(repo, col, "R-C11-pairing")
 
 
 def _basestate(repo, col):
@@ -639,16 +643,54 @@ def _edges(repo, col):
 
 
 def _loc(repo, col):
+    """loc(x): for every branch b in view, the compartment whose interval contains x -- with the package's border
+    convention (a location exactly on an inner border belongs to the LOWER compartment, as in
+    cell_utils.local_index_of_loc) -- offset by the branch's first compartment; selected in global scope, caller's scope
+    restored.  Decided on the term of the index array handed to .comp(...), helpers inlined."""
     R = "R-C11-loc"
+    from sa.terms import fuse_comprehensions
     fi = repo.method("Module", "loc")
-    src = unparse(fi.node)
-    loop = next((n for n in walk_no_nested(fi.node) if isinstance(n, ast.For)), None)
-    ok = loop is not None and unparse(loop.iter) == "self._branches_in_view"
-    col.check(ok, R, fi, "loc iterates the branches in view", "for i in self._branches_in_view", f"iterates {unparse(loop.iter) if loop else None}", node=loop or fi.node)
-    tv = unparse(loop.target) if loop else "i"
-    ok = f"self.base.ncomp_per_branch[{tv}]" in src and f"self.base.cumsum_ncomp[{tv}]" in src
-    col.check(ok, R, fi, "each branch uses its own compartment count and offset", "ncomp_per_branch[i], cumsum_ncomp[i]",
-              "loc does not use the per-branch count/offset of the branch being processed", node=loop or fi.node)
-    ok = "orig_scope = self._scope" in src and ".scope(orig_scope)" in src and "self.scope('global').comp(global_comp_idxs)" in src
-    col.check(ok, R, fi, "loc selects in global scope and restores the caller's scope",
-              "self.scope('global').comp(idxs).scope(orig_scope)", "loc does not restore the scope of the view it was called on", node=fi.node)
+    ex = idx.expander(repo, fi)
+    terms = list(ex.returns) + [s_.value for s_ in ex.stores if s_.value is not None]
+    comp_call = next((x for t_ in terms for x in t_.walk() if x.op == "mcall" and x.name == "comp" and len(x.args) > 1), None)
+    if comp_call is None:
+        raise AnalysisError("Module.loc no longer selects compartments with .comp(...)")
+    arg = fuse_comprehensions(idx.inline(repo, fi, comp_call.args[1]))
+    br = T.find(arg, lambda x: x.op == "elem" and x.args[0].op == "attr" and x.args[0].name == "_branches_in_view")
+    col.check(br is not None and _is_self(br.args[0].args[0]), R, fi, "loc iterates the branches in view", "for i in self._branches_in_view",
+              f"index array is {arg.short(100)}", node=fi.node)
+    bkey = br.key() if br is not None else None
+    per = lambda nm: T.find(arg, lambda x: x.op == "sub" and x.args[0].op == "attr" and x.args[0].name == nm and
+                            T.find(x.args[0], lambda y: y.op == "attr" and y.name == "base") is not None and x.args[1].key() == bkey) is not None
+    col.check(bkey is not None and per("ncomp_per_branch") and per("cumsum_ncomp"), R, fi,
+              "each branch uses its own compartment count and offset", "base.ncomp_per_branch[i], base.cumsum_ncomp[i]",
+              "loc does not use the per-branch count/offset of the branch being processed", node=fi.node)
+    dg = T.find(arg, lambda x: x.op == "mcall" and x.name == "digitize")
+    floor_form = T.find(arg, lambda x: x.op == "mcall" and x.name in ("astype", "floor", "floor_divide") and
+                        T.find(x, lambda y: y.op == "binop" and y.name in ("*", "//")) is not None) is not None
+    verdict, why = "UNDECIDED", "index computation not recognised"
+    if dg is not None and len(dg.args) >= 3:
+        edges = dg.args[2]
+        ls = T.find(edges, lambda x: x.op == "mcall" and x.name == "linspace")
+        stretched = ls is not None and len(ls.args) >= 4 and T.find(ls.args[2], lambda x: x.op == "binop" and x.name == "+") is not None
+        minus1 = T.find(arg, lambda x: x.op == "binop" and x.name == "-" and x.args[1].op == "const" and x.args[1].name == 1 and
+                        T.find(x.args[0], lambda y: y is dg) is not None) is not None
+        right = dg.kw.get("right")
+        if stretched and minus1 and right is None:
+            verdict, why = "DISCHARGED", "digitize(x, linspace(0, 1 + eps, n + 1)) - 1: a border k/n belongs to compartment k-1"
+        else:
+            verdict, why = "VIOLATED", (f"compartment index is {dg.short(80)}{' - 1' if minus1 else ''}: without the stretched upper edge "
+                                        f"(1 + eps) a location exactly on an inner border k/n falls into the upper compartment (and x = 1.0 "
+                                        f"outside the branch)")
+    elif floor_form:
+        verdict, why = "VIOLATED", ("the compartment index is floor(x * ncomp): a location exactly on an inner border k/ncomp selects the UPPER "
+                                    "compartment, the package's convention (np.digitize against edges stretched by 1e-10, and "
+                                    "local_index_of_loc) selects the lower one: loc(0.5) with ncomp=2 picks another compartment")
+    col.add(R, fi, "a location on an inner compartment border selects the lower compartment", verdict, why, node=fi.node)
+    sc_glob = comp_call.args[0].op == "mcall" and comp_call.args[0].name == "scope" and len(comp_call.args[0].args) > 1 and \
+        comp_call.args[0].args[1].op == "const" and comp_call.args[0].args[1].name == "global" and _is_self(comp_call.args[0].args[0])
+    restored = any(y.op == "mcall" and y.name == "scope" and y.args[0] is comp_call and len(y.args) > 1 and
+                   T.find(y.args[1], lambda z: z.op == "attr" and z.name == "_scope") is not None for t_ in terms for y in t_.walk())
+    col.check(sc_glob and restored, R, fi, "loc selects in global scope and restores the caller's scope",
+              "self.scope('global').comp(idxs).scope(orig_scope)", "loc does not select globally / restore the scope of the view it was called on",
+              node=fi.node)
